@@ -10,13 +10,99 @@ fn parse_list(s: &str) -> Vec<usize> {
 fn main() {
     let args: Vec<String> = std::env::args().collect();
     let side = args[1].clone();
-    let input: Vec<u8> = parse_list(&args[2]).into_iter().map(|x| x as u8).collect();
+    let text = match args[2].strip_prefix('@') {
+        Some(path) => std::fs::read_to_string(path).expect("input file"),
+        None => args[2].clone(),
+    };
+    let input: Vec<u8> = parse_list(text.trim()).into_iter().map(|x| x as u8).collect();
     let mut cuts = parse_list(&args[3]);
     cuts.push(input.len());
     let methods: Vec<String> = args[4].split(',').map(|s| s.to_string()).collect();
     let res = std::panic::catch_unwind(|| {
         let mut lo = 0usize;
-        if side == "encode" {
+        if side == "anchors-enc" || side == "anchors-dec" {
+            // C05: feed the pieces (anchored ones are first read into the codec's own arena), then
+            // make the arena move on to fresh chunks and check that the bytes exposed by the iovec
+            // did not change (in a debug build a freed chunk is overwritten with 0xFC).
+            let fill = (0u8..=255).find(|b| !input.contains(b) && *b != 0xFC).unwrap_or(0x55);
+            let big = vec![fill; 1 << 20];
+            let one = NonZeroUsize::new(1).unwrap();
+            // anchored pieces come from an arena of their own, which goes away before the bytes are read back
+            let mut src_arena = owning_iovec::ByteArena::new();
+            let mut iov = if side == "anchors-enc" {
+                let mut enc = hcobs::Encoder::new();
+                for (i, &c) in cuts.iter().enumerate() {
+                    let piece = &input[lo..c];
+                    match methods.get(i).map(|s| s.as_str()).unwrap_or("copy") {
+                        "borrow" => enc.encode(piece),
+                        "anchored" => {
+                            let a = src_arena.read_n(piece, piece.len(), one).unwrap();
+                            enc.encode_anchored(a)
+                        }
+                        _ => enc.encode_copy(piece),
+                    }
+                    lo = c;
+                }
+                enc.finish()
+            } else {
+                let mut dec = hcobs::Decoder::new();
+                for (i, &c) in cuts.iter().enumerate() {
+                    let piece = &input[lo..c];
+                    let r = match methods.get(i).map(|s| s.as_str()).unwrap_or("copy") {
+                        "borrow" => dec.decode(piece),
+                        "anchored" => {
+                            let a = src_arena.read_n(piece, piece.len(), one).unwrap();
+                            dec.decode_anchored(a)
+                        }
+                        _ => dec.decode_copy(piece),
+                    };
+                    lo = c;
+                    if r.is_err() {
+                        break;
+                    }
+                }
+                dec.take_iovec()
+            };
+            let before = iov.flatten().expect("no pending backref");
+            drop(src_arena);
+            for _ in 0..4 {
+                let _ = iov.arena().read_n(&big[..], big.len(), one).unwrap();
+            }
+            let after = iov.flatten().expect("no pending backref");
+            if before != after {
+                return Ok(vec![0xDA, 0x91]); // marker: exposed bytes changed (dangling)
+            }
+            return Err(());
+        }
+        if side == "roundtrip" {
+            // encode with the given cuts, then decode the stream cut at every position
+            let mut enc = hcobs::Encoder::new();
+            for (i, &c) in cuts.iter().enumerate() {
+                let piece = &input[lo..c];
+                match methods.get(i).map(|s| s.as_str()).unwrap_or("copy") {
+                    "borrow" => enc.encode(piece),
+                    _ => enc.encode_copy(piece),
+                }
+                lo = c;
+            }
+            let stream = enc.finish().flatten().expect("no pending backref");
+            for dc in 0..=stream.len() {
+                let mut dec = hcobs::Decoder::new();
+                if dec.decode(&stream[..dc]).is_err() || dec.decode_copy(&stream[dc..]).is_err() {
+                    return Err(());
+                }
+                match dec.finish() {
+                    Ok(iov) => {
+                        let got = iov.flatten().expect("no pending backref");
+                        if got != input {
+                            return Ok(got);
+                        }
+                    }
+                    Err(_) => return Err(()),
+                }
+            }
+            Ok(input.clone())
+        } else if side == "encode" {
             let mut enc = hcobs::Encoder::new();
             for (i, &c) in cuts.iter().enumerate() {
                 let piece = &input[lo..c];
